@@ -295,7 +295,7 @@ def history_case(draw):
     runs = []
     versions = [draw(st.integers(0, 2)) for _ in plots]
     tver = 1
-    for r in range(draw(st.integers(1, 4))):
+    for r in range(draw(st.sampled_from([1, 2, 2, 3, 3, 4]))):
         run = {}
         if r:
             versions = [v if draw(st.integers(0, 2)) else v + 1 + draw(st.integers(0, 1)) for v in versions]
